@@ -14,7 +14,7 @@ use crate::{
 };
 
 /// The four fixture maps trimmed to their first object lines (read once from /repo/resources).
-fn fixtures() -> &'static Vec<String> {
+pub fn fixtures() -> &'static Vec<String> {
     static F: OnceLock<Vec<String>> = OnceLock::new();
     F.get_or_init(|| {
         let mut out = Vec::new();
